@@ -13,6 +13,13 @@ What is generated (and measured in `features`):
    applied lambdas (with defaults that read globals), list/set/dict comprehensions, generator
    expressions, nested comprehensions, nested `def`s, local assignments, `for` loops,
    local names / parameters that coincide with names that are global elsewhere;
+ * SCOPING on purpose (exportscope.py): comprehension / generator-expression variables named like a global of the
+   formula (reference, ItemSpace parameter, cells, child space) that is read as a global elsewhere in the same
+   formula - mostly the idiom `for n in range(n)` -, comprehensions 1-3 deep whose inner element / condition /
+   iterables read the outer variable, lambdas and generator expressions in and around them, keyword arguments named
+   like globals (`bar(x=x)`), parenthesised names (`(n)`, `(foo)(1)`); `scope_shapes` counts which of these shapes
+   every generated formula has (features `shape_*`);
+ * child spaces and ItemSpace parameters named like built-ins; model-level references holding cells / spaces;
  * names shadowing built-ins as references AND as cells (`len`, `max`, `type`, ...), next to
    uses of real built-ins that nothing shadows;
  * references: literal (int, str, bool, None), pickled (list, tuple, dict, nested; one object
@@ -33,13 +40,15 @@ Termination: every cells NAME has a rank and a signature, model wide; a formula 
 names of lower rank (whatever space the call lands in, also through overrides), or its own
 name with the first argument decremented under the guard `> 0`.
 
-Shapes known to break the exporter on the unchanged tree are recognised by `triggers` and
-are not generated (they are covered by corpus witnesses, known_findings.json).
+Shapes that belong to a `status: known` entry of known_findings.json are recognised by `source_triggers` /
+`desc_triggers` / `query_triggers` and are not generated (corpus witnesses cover them); the shapes of repaired
+findings (`status: fixed`) are generated like any other.
 """
 import ast
 import builtins as _bi
 
 from . import exportvals as V
+from . import exportscope as SC
 
 SHADOW_POOL = ["len", "max", "min", "abs", "type", "id", "list", "str", "int", "sorted", "any", "all",
                "round", "pow", "hash", "bin", "ord", "chr", "dict", "set", "zip", "map", "filter",
@@ -153,6 +162,12 @@ class ModelGen:
     def gen(self):
         rng = self.rng
         prof = self.profile
+        # one pool of built-in names for the whole model: child spaces, ItemSpace parameters, cells and
+        # references draw from it without replacement, so no two members of a model share such a name
+        self.pool_sh = list(SHADOW_POOL)
+        rng.shuffle(self.pool_sh)
+        self.builtin_named = set()        # child spaces and parameters named like a built-in
+        self.p_bi = {"shadow": 0.3, "mixed": 0.12, "items": 0.2, "inherit": 0.08, "syntax": 0.12, "values": 0.05}[prof]
         ntop = rng.randint(1, 3 if prof != "items" else 2) + (1 if prof == "inherit" else 0)
         tops = rng.sample(TOP_SPACES, ntop)
         p_formula = {"items": 0.7, "mixed": 0.35, "shadow": 0.2, "inherit": 0.2, "syntax": 0.15, "values": 0.3}[prof]
@@ -195,6 +210,10 @@ class ModelGen:
         if self.profile == "items" and depth == 1:
             nch = max(nch, 1)
         for nm in rng.sample(CHILD_SPACES, nch):
+            if self.pool_sh and rng.random() < self.p_bi:
+                nm = self.pool_sh.pop()               # a child space named like a built-in
+                self.builtin_named.add(nm)
+                self.feat("child_space_named_like_builtin")
             c = SpaceInfo(s.path + (nm,), s)
             s.children.append(c)
             self.spaces.append(c)
@@ -213,6 +232,11 @@ class ModelGen:
         for _ in range(n):
             if outer and rng.random() < 0.6:
                 cand = rng.choice(outer)           # REUSE the name of an enclosing parameter
+            elif self.pool_sh and rng.random() < self.p_bi and not (
+                    self.pool_sh[-1] in CALL_TEMPLATE_BUILTINS and _is_active(K_PARAM_ZIP)):
+                cand = self.pool_sh.pop()          # a parameter named like a built-in
+                self.builtin_named.add(cand)
+                self.feat("space_param_named_like_builtin")
             else:
                 cand = rng.choice(SPACE_PARAMS)
             if cand not in names:
@@ -231,8 +255,7 @@ class ModelGen:
     def _name_universe(self):
         rng = self.rng
         p_sh = {"shadow": 0.6, "mixed": 0.3, "items": 0.1, "inherit": 0.2, "syntax": 0.25, "values": 0.15}[self.profile]
-        pool_sh = list(SHADOW_POOL)
-        rng.shuffle(pool_sh)
+        pool_sh = self.pool_sh
         reserved = set(SPACE_PARAMS)
         ncells = rng.randint(3, 8)
         names = []
@@ -266,6 +289,8 @@ class ModelGen:
                 self.ref_universe.append(plainr.pop())
         self.shadowed = set(self.cell_universe) | set(self.ref_universe)
         assert not (self.shadowed & reserved)
+        assert not (self.shadowed & self.builtin_named)
+        self.shadowed |= self.builtin_named       # formulas do not rely on the built-in of such a name anywhere
 
     def _assign_members(self):
         rng = self.rng
@@ -345,11 +370,13 @@ class ModelGen:
         shared = None
         # model level
         for nm in self.ref_universe:
-            if rng.random() < 0.3 and self.reftype[nm][0] in ("lit", "pick", "mod", "val"):
+            if rng.random() < 0.3:
                 rd = self._make_ref(None, nm, shared)
                 if rd:
                     self.grefs[nm] = rd
                     self.feat("model_level_ref")
+                    if "obj" in rd["val"]:
+                        self.feat("model_level_ref_to_object")
         for s in self.spaces:
             vis = {}
             for b in s.all_bases():
@@ -411,6 +438,8 @@ class ModelGen:
                 root = s.param_root()
                 inside = target is root or root in target.ancestors()
                 mode = "absolute" if inside else rng.choice(["auto", "absolute"])
+            elif s is None:
+                mode = "auto"           # model level: the mode is not used
             else:
                 mode = rng.choice(["auto", "auto", "absolute", "relative"])
             if kind[0] == "cells":
@@ -514,6 +543,8 @@ class ModelGen:
                     self.feat("uncached_cells")
                 for t in tags:
                     self.feat("syn_" + t)
+                for t in scope_shapes(src):
+                    self.feat("shape_" + t)
                 s.own_cells[cn] = {"name": cn, "src": src, "cached": cached}
                 if cn in ALL_BUILTINS:
                     self.feat("cells_shadowing_builtin")
@@ -658,6 +689,9 @@ class FormulaGen:
             self.tag("global_int_name")
             if n in ALL_BUILTINS:
                 self.tag("uses_ref_shadowing_builtin")
+            if rng.random() < 0.06:
+                self.tag("parenthesised_global_name")
+                return "(%s)" % n
             return n
         return self.lit()
 
@@ -669,13 +703,18 @@ class FormulaGen:
         if d <= 0 or self.budget <= 0:
             return self.g_int(locs)
         forms = ["atom", "atom", "bin", "bin", "cond", "call", "call", "builtin", "seqred", "lam", "genexp",
-                 "dictget", "strlen", "item", "mod", "seqidx"]
+                 "dictget", "strlen", "item", "mod", "seqidx", "scoped", "scoped"]
         if self.simple:
             forms = ["atom", "bin", "call", "builtin"]
         if self.flat:
             forms = ["atom", "bin", "cond", "call", "dictget", "seqidx", "mod", "strlen"]
         f = rng.choice(forms)
         if f == "atom":
+            return self.g_int(locs)
+        if f == "scoped":
+            e = self.scoped_expr(locs)
+            if e:
+                return e
             return self.g_int(locs)
         if f == "bin":
             op = rng.choice(["+", "-", "+", "*", "//", "%"])
@@ -783,11 +822,12 @@ class FormulaGen:
             for n in added:
                 self.shadow.discard(n)
 
-    def fresh_local(self, locs, allow_global_names):
+    def fresh_local(self, locs, allow_global_names, p_global=0.3):
         rng = self.rng
         taken = set(locs) | self.fn_locals
-        if allow_global_names and rng.random() < 0.3:
-            cands = [n for n in (self.view["int"] + [x[0] for x in self.view["seq"]] + list(self.mg.cell_universe))
+        if allow_global_names and rng.random() < p_global:
+            cands = [n for n in (self.view["int"] + [x[0] for x in self.view["seq"]] + list(self.mg.cell_universe) +
+                                 [c.path[-1] for c in self.space.children])
                      if n not in taken and n != self.cname]
             if cands:
                 self.tag("local_named_like_a_global")
@@ -796,6 +836,67 @@ class FormulaGen:
         if not cands:
             cands = ["v%d" % k for k in range(20) if "v%d" % k not in taken]
         return rng.choice(cands)
+
+    def comp_var(self, locs):
+        """the variable of a comprehension / generator expression: often a name that is global elsewhere in
+        the formula (a reference, a parameter of the space, a cells, a child space), or a built-in"""
+        v = self.fresh_local(locs, allow_global_names=True, p_global=0.45)
+        if v in self.global_universe or v in ALL_BUILTINS:
+            self.tag("comprehension_variable_named_like_global")
+        return v
+
+    def comp_iter(self, v, d, locs):
+        """the (first) iterable of a comprehension whose variable is `v`: when `v` is an int-valued global of the
+        formula, mostly the idiom `for n in range(n)` - global in the iterable, loop variable after it"""
+        if v in self.view["int"] and v not in self.shadow and v not in locs and self.rng.random() < 0.6:
+            self.tag("loop_variable_named_like_global_of_its_iterable")
+            return "range(%s)" % self.nonneg(v, 3)
+        return self.iter_expr(d, locs)
+
+    def scoped_expr(self, locs):
+        """an int expression of exportscope.ScopeExprGen over the int-valued globals of this position: every binder
+        (comprehension 1-3 deep, lambda, generator expression) picks its variable among the global names, the names
+        bound around it and fresh ones; every place may read every name in scope"""
+        if self.flat or self.budget <= 0:
+            return None
+        need = ("sum", "range", "sorted", "list", "tuple", "enumerate")
+        if not all(self.ok_builtin(b) for b in need):
+            return None
+        taken = set(locs) | self.fn_locals | self.shadow
+        globs = [SC.int_kind("i", n) for n in self.view["int"] if n not in taken]
+        # a parameterless-or-one-parameter cells by name, a child space's cells: used as `foo(1)` / `Ch.foo(1)`
+        for prefix, cn, sig, how in self.view["calls"]:
+            if self.ncalls >= 3 or len(globs) >= 6:
+                break
+            if prefix not in ("",) and how != "via_child":
+                continue
+            head = cn if prefix == "" else prefix[:-1]
+            if head in taken or any(g.name == head for g in globs) or len([1 for p_, d_ in sig if d_ is None]) > 1:
+                continue
+            args = ", ".join(str(self.rng.randint(0, 2)) for p_, d_ in sig if d_ is None)
+            if prefix == "":
+                globs.append(SC.NameKind("c", cn, "%s(%s)" % (cn, args), "(%s)(%s)" % (cn, args)))
+            else:
+                globs.append(SC.NameKind("s", head, "%s.%s(%s)" % (head, cn, args), "(%s).%s(%s)" % (head, cn, args)))
+        if not globs:
+            return None
+        globs = self.rng.sample(globs, min(len(globs), self.rng.randint(1, 3)))
+        if any(g.label in ("c", "s") for g in globs):
+            self.ncalls += 1
+        avoid = taken | self.global_universe | self.mg.shadowed | set(locs)
+        fresh = [n for n in ["i", "j", "q", "r", "s", "z", "u0", "u1", "u2", "u3"] if n not in avoid] or ["u7", "u8", "u9"]
+        gen = SC.ScopeExprGen(self.rng, globs, fresh=fresh, budget=self.rng.choice([8, 11, 14]), p_shadow=0.8,
+                              p_nest=0.55, avoid_builtins=() if self.ok_builtin("len") else ("len",),
+                              allow_walrus=False)
+        self.budget -= 4
+        if self.rng.random() < 0.6:
+            e = "sum(%s)" % gen.seq_expr(self.rng.choice([2, 3]), list(locs), "int")      # a comprehension for sure
+        else:
+            e = gen.int_expr(self.rng.choice([2, 3]), list(locs))
+        for t in sorted(gen.tags):
+            self.tag("scoped_" + t)
+        self.tag("scoped_expression")
+        return e
 
     def args_for(self, sig, d, locs, allow_kw=True):
         rng = self.rng
@@ -807,11 +908,17 @@ class FormulaGen:
             e = self.int_expr(d - 1, locs)
             if i == 0:
                 e = self.nonneg(e, 3)
-            # a keyword whose name is also a global name breaks the exporter (known finding)
-            kw_ok = allow_kw and p not in self.global_universe
+            kw_ok = allow_kw
             if kw_started and not kw_ok:
                 break       # only keywords may follow a keyword; the rest is left to defaults (or fails alike)
-            if kw_ok and (kw_started or rng.random() < 0.15):
+            # a keyword named like a global name of the formula (`bar(x=x)`) is the common idiom: preferred
+            if kw_ok and (kw_started or rng.random() < (0.4 if p in self.global_universe else 0.15)):
+                if p in self.global_universe:
+                    self.tag("keyword_named_like_global")
+                    if rng.random() < 0.5 and p in self.view["int"] and p not in self.shadow and p not in locs:
+                        e = p                  # f(x=x)
+                        if i == 0:
+                            e = self.nonneg(e, 3)
                 parts.append("%s=%s" % (p, e))
                 kw_started = True
                 self.tag("keyword_argument")
@@ -837,6 +944,9 @@ class FormulaGen:
         if name in ALL_BUILTINS and prefix in ("", None):
             self.tag("uses_member_shadowing_builtin")
         target = name if prefix is None else prefix + name
+        if prefix in ("", None) and rng.random() < 0.06:
+            self.tag("parenthesised_global_name")
+            target = "(%s)" % target
         return "%s(%s)" % (target, self.args_for(sig, d, locs))
 
     def item_expr(self, d, locs):
@@ -891,45 +1001,54 @@ class FormulaGen:
             return rng.choice(ss)[0]
         if f == "listcomp":
             self.tag("list_comprehension")
-            v = self.fresh_local(locs, allow_global_names=False)
-            it = self.iter_expr(d - 1, locs)
+            v = self.comp_var(locs)
+            it = self.comp_iter(v, d - 1, locs)
             body = self.with_shadow([v], lambda: self.int_expr(d - 1, locs + [v]))
             return "[%s for %s in %s]" % (body, v, it)
         if f == "tuplegen":
             self.tag("generator_expression")
-            v = self.fresh_local(locs, allow_global_names=False)
-            it = self.iter_expr(d - 1, locs)
+            v = self.comp_var(locs)
+            it = self.comp_iter(v, d - 1, locs)
             body = self.with_shadow([v], lambda: self.int_expr(d - 1, locs + [v]))
             return "tuple(%s for %s in %s)" % (body, v, it)
         if f == "filtered":
             self.tag("list_comprehension")
             self.tag("comprehension_condition")
-            v = self.fresh_local(locs, allow_global_names=False)
-            it = self.iter_expr(d - 1, locs)
+            v = self.comp_var(locs)
+            it = self.comp_iter(v, d - 1, locs)
             body, cond = self.with_shadow([v], lambda: (self.int_expr(d - 1, locs + [v]),
                                                         self.int_expr(d - 1, locs + [v])))
             return "[%s for %s in %s if %s != %s]" % (body, v, it, cond, self.lit())
         if f == "nested":
             self.tag("nested_comprehension")
-            v = self.fresh_local(locs, allow_global_names=False)
-            w = self.fresh_local(locs + [v], allow_global_names=False)
+            v = self.comp_var(locs)
+            w = self.comp_var(locs + [v])
             body = self.with_shadow([v, w], lambda: self.int_expr(d - 1, locs + [v, w]))
-            if rng.random() < 0.5:
+            r = rng.random()
+            if r < 0.35:
                 return "[%s for %s in range(%d) for %s in range(%s + 1)]" % (body, v, rng.randint(1, 2), w, v)
             inner_it = self.with_shadow([v], lambda: self.nonneg(self.int_expr(d - 1, locs + [v]), 3))
-            return "[sum([%s for %s in range(%s)]) for %s in range(%d)]" % (body, w, inner_it, v, rng.randint(1, 3))
+            outer_it = self.comp_iter(v, 0, locs)
+            if r < 0.7:
+                return "[sum([%s for %s in range(%s)]) for %s in %s]" % (body, w, inner_it, v, outer_it)
+            # a list of lists, flattened: the inner element / condition reads the outer variable
+            self.tag("comprehension_condition")
+            cond = self.with_shadow([v, w], lambda: self.int_expr(d - 1, locs + [v, w]))
+            return "[e_ for l_ in [[%s for %s in range(%s) if %s != %s] for %s in %s] for e_ in l_]" % (
+                body, w, inner_it, cond, self.lit(), v, outer_it)
         if f == "dictcomp":
             self.tag("dict_comprehension")
-            v = self.fresh_local(locs, allow_global_names=False)
+            v = self.comp_var(locs)
             body = self.with_shadow([v], lambda: self.int_expr(d - 1, locs + [v]))
-            return "list({%s: %s for %s in range(%d)}.values())" % (v, body, v, rng.randint(1, 3)) \
+            it = self.comp_iter(v, 0, locs)
+            return "list({%s: %s for %s in %s}.values())" % (v, body, v, it) \
                 if self.ok_builtin("list") else \
-                "[vv for vv in {%s: %s for %s in range(%d)}.values()]" % (v, body, v, rng.randint(1, 3))
+                "[vv for vv in {%s: %s for %s in %s}.values()]" % (v, body, v, it)
         if f == "setcomp" and self.ok_builtin("sorted"):
             self.tag("set_comprehension")
-            v = self.fresh_local(locs, allow_global_names=False)
+            v = self.comp_var(locs)
             body = self.with_shadow([v], lambda: self.int_expr(d - 1, locs + [v]))
-            return "sorted({%s for %s in range(%d)})" % (body, v, rng.randint(1, 3))
+            return "sorted({%s for %s in %s})" % (body, v, self.comp_iter(v, 0, locs))
         if f == "concat":
             a = self.seq_expr(d - 1, locs)
             b = self.seq_expr(d - 1, locs)
@@ -948,8 +1067,8 @@ class FormulaGen:
         if f == "enum" and self.ok_builtin("enumerate"):
             self.tag("list_comprehension")
             self.tag("real_builtin")
-            v = self.fresh_local(locs, allow_global_names=False)
-            w = self.fresh_local(locs + [v], allow_global_names=False)
+            v = self.comp_var(locs)
+            w = self.comp_var(locs + [v])
             body = self.with_shadow([v, w], lambda: self.int_expr(d - 1, locs + [v, w]))
             return "[%s for %s, %s in enumerate(%s)]" % (body, v, w, self.seq_expr(d - 1, locs))
         return "(%s, %s)" % (self.int_expr(d - 1, locs), self.int_expr(d - 1, locs))
@@ -960,6 +1079,11 @@ class FormulaGen:
         """what the cells returns: mostly an int, sometimes a tuple / list / str / dict"""
         rng = self.rng
         r = rng.random()
+        if not self.simple and rng.random() < (0.35 if self.mg.profile in ("syntax", "shadow") else 0.2):
+            # on purpose: binders that shadow the formula's globals (comprehensions 1-3 deep, lambdas ...)
+            e = self.scoped_expr(locs)
+            if e:
+                return e if self.mg.ret_int[self.cname] else "(%s, %s)" % (e, self.g_int(locs))
         if self.mg.ret_int[self.cname] or self.simple:
             return self.int_expr(d, locs)
         r = 0.6 + 0.4 * r
@@ -1093,6 +1217,10 @@ K_SCOPE_IN_DEFAULT = "C15-scope-order-mismatch"
 K_MODEL_OBJREF = "C15-model-level-object-ref"
 K_KEYWORD_GLOBAL = "C15-keyword-named-like-global"
 K_NONFINITE = V.K_NONFINITE
+K_STATIC_BUILTIN_PARAM = "C15-static-access-builtin-named-param"
+K_PARAM_ZIP = "C15-param-named-zip"
+# built-ins that the generated `__call__` of an ItemSpace uses by name: a parameter of that name breaks it
+CALL_TEMPLATE_BUILTINS = ("zip",)
 
 
 
@@ -1111,6 +1239,10 @@ def _active_keys():
 
 
 _ACTIVE = _active_keys()
+
+
+def _is_active(key):
+    return _ACTIVE is None or key in _ACTIVE
 
 
 def _only_active(keys):
@@ -1141,6 +1273,91 @@ def _globals_anywhere(src):
         for ch in t.get_children():
             rec(ch, False)
     rec(top, True)
+    return res
+
+
+def scope_shapes(src):
+    """which of the scoping shapes the exporter has to get right occur in a formula (coverage bookkeeping):
+      comp_var_global        a comprehension variable that is also a global name of the formula
+      nested_outer_var_used  ... of a comprehension that contains another one DIRECTLY (no lambda / generator
+                             expression between them) whose element / condition / later iterables read it
+      nested_3_deep          the same, the reader two comprehensions further in
+      bound_inner_global_outer  bound by an inner comprehension, read as a global by an enclosing one
+      keyword_like_global    a keyword argument named like a global name of the formula
+      parenthesised_global   a global name in its own parentheses"""
+    res = set()
+    try:
+        fn = _func_node(src)
+        gl = _globals_anywhere(src)
+    except SyntaxError:
+        return res
+    comps = (ast.ListComp, ast.SetComp, ast.DictComp)
+    barrier = (ast.Lambda, ast.FunctionDef, ast.GeneratorExp)
+
+    def targets(c):
+        return set(t.id for g in c.generators for t in ast.walk(g.target) if isinstance(t, ast.Name))
+
+    def inner_parts(c):
+        """the parts of comprehension c that are evaluated in c's own scope"""
+        parts = [c.key, c.value] if isinstance(c, ast.DictComp) else [c.elt]
+        for k, g in enumerate(c.generators):
+            parts.extend(g.ifs)
+            if k:
+                parts.append(g.iter)
+        return parts
+
+    def walk_no_barrier(node, depth, bound, top):
+        for ch in ast.iter_child_nodes(node):
+            if isinstance(ch, barrier):
+                continue
+            if isinstance(ch, comps):
+                tg = targets(ch)
+                if depth >= 1:
+                    reads = set(n.id for part in inner_parts(ch) for n in ast.walk(part)
+                                if isinstance(n, ast.Name) and isinstance(n.ctx, ast.Load))
+                    hit = (reads - tg) & bound & gl
+                    if hit:
+                        res.add("nested_outer_var_used")
+                        if any(x in top for x in hit) and depth >= 2:
+                            res.add("nested_3_deep")
+                if tg & gl:
+                    res.add("comp_var_global")
+                # the first iterable belongs to the enclosing scope
+                walk_no_barrier(ch.generators[0].iter, depth, bound, top)
+                for part in inner_parts(ch):
+                    walk_no_barrier(ast.Expression(part), depth + 1, bound | tg, top if depth else tg)
+            else:
+                walk_no_barrier(ch, depth, bound, top)
+    walk_no_barrier(fn, 0, set(), set())
+    for c in ast.walk(fn):
+        if not isinstance(c, comps):
+            continue
+        # names bound by a comprehension nested in c's own parts ...
+        inner_bound = set()
+        for part in inner_parts(c):
+            for n in ast.walk(part):
+                if isinstance(n, comps):
+                    inner_bound |= targets(n)
+        if not inner_bound:
+            continue
+        # ... and read by c itself (outside every nested scope) as a global
+        reads_here = set()
+        stack = list(inner_parts(c))
+        while stack:
+            nd = stack.pop()
+            if isinstance(nd, comps + barrier):
+                continue
+            if isinstance(nd, ast.Name) and isinstance(nd.ctx, ast.Load):
+                reads_here.add(nd.id)
+            stack.extend(ast.iter_child_nodes(nd))
+        if (reads_here & inner_bound & gl) - targets(c):
+            res.add("bound_inner_global_outer")
+    kws = set(k.arg for n in ast.walk(fn) if isinstance(n, ast.Call) for k in n.keywords if k.arg)
+    if kws & gl:
+        res.add("keyword_like_global")
+    for mo in _PAREN_NAME.finditer(src):
+        if mo.group(0).strip("() \t") in gl:
+            res.add("parenthesised_global")
     return res
 
 
@@ -1191,6 +1408,11 @@ def source_triggers(src, cells_names=()):
             if any(isinstance(x, scopes + comps) for x in ast.walk(n.body)) and \
                     any(isinstance(x, scopes + comps) for x in ast.walk(n.test)):
                 res.add(K_SCOPE_IN_DEFAULT)
+        if isinstance(n, ast.DictComp):
+            # symtable visits the VALUE of a dict comprehension before its KEY, libcst the key first
+            if any(isinstance(x, scopes) for x in ast.walk(n.key)) and \
+                    any(isinstance(x, scopes) for x in ast.walk(n.value)):
+                res.add(K_SCOPE_IN_DEFAULT)
     # a comprehension variable that is also a global name of the function (inlined comprehensions, 3.12+)
     try:
         gl = _globals_anywhere(src)
@@ -1207,6 +1429,44 @@ def source_triggers(src, cells_names=()):
     names = set(n.id for n in ast.walk(fn) if isinstance(n, ast.Name))
     if kws & names:
         res.add(K_KEYWORD_GLOBAL)
+    return _only_active(res)
+
+
+def query_triggers(desc, steps, src):
+    """known-finding keys that depend on HOW the space of a query is reached: a parametrised space (or a space
+    below one) reached WITHOUT an item step has no parameter values; a formula that reads a parameter named like
+    a built-in gets the built-in in modelx and `self.<name>` (AttributeError) in the exported class"""
+    from .exportworld import iter_spaces
+    by_path = dict(iter_spaces(desc))
+    unbound = set()
+    path = ()
+    for k, st in enumerate(steps):
+        if "attr" not in st:
+            continue
+        path = path + (st["attr"],)
+        sp = by_path.get(path)
+        if sp is None:
+            return set()
+        f = sp.get("formula")
+        if f and not (k + 1 < len(steps) and "item" in steps[k + 1]):
+            if isinstance(f, str):
+                try:
+                    unbound.update(a.arg for a in _func_node(f).args.args)
+                except SyntaxError:
+                    pass
+            else:
+                unbound.update(p for p, _ in f)
+        elif f:
+            # bound at this level: an inner binding of the name hides an outer unbound one
+            names = [p for p, _ in f] if not isinstance(f, str) else []
+            unbound.difference_update(names)
+    res = set()
+    try:
+        used = set(n.id for n in ast.walk(_func_node(src)) if isinstance(n, ast.Name)) if src else set()
+    except SyntaxError:
+        used = set()
+    if any(n in ALL_BUILTINS and n in used for n in unbound):
+        res.add(K_STATIC_BUILTIN_PARAM)
     return _only_active(res)
 
 
@@ -1258,6 +1518,8 @@ def desc_triggers(desc):
                     pass
             elif f:
                 params += [p for p, _ in f]
+        if any(n in CALL_TEMPLATE_BUILTINS for n in params):
+            keys.add(K_PARAM_ZIP)
         children = set(c["name"] for c in sp.get("spaces", []))
         for n in set(params) | children:
             if n in ALL_BUILTINS and n not in refs and n not in cells:
